@@ -447,8 +447,81 @@ def methods(out_path):
               open(out_path, "w"), default=str)
 
 
+def twice(out_path):
+    """C01 on derived objects at several sizes (also beyond typical threshold constants): the same derivation asked
+    twice gives two NEW, independent objects - a write through one shows neither in the other nor in the source."""
+    F, ex = Fails(), 0
+    for n in (1, 3, 70, 1100):
+        def mk():
+            return Table({"k": [i % 7 for i in range(n)], "v": [i for i in range(n)], "s": ["x%d" % (i % 3) for i in range(n)]})
+        ops = {
+            "sort_by(name)": lambda t: t.sort_by("k"),
+            "sort_by(vector, reverse)": lambda t: t.sort_by(t.k, reverse=True),
+            "copy()": lambda t: t.copy(),
+            "t[:]": lambda t: t[:],
+            "t[mask]": lambda t: t[[True] * len(t)],
+            "t[names]": lambda t: t[("k", "v")],
+            "t >> {..}": lambda t: t >> {"z": list(range(len(t)))},
+            "aggregate": lambda t: t.aggregate(over="k", sum_over="v"),
+            "window": lambda t: t.window(over="k", sum_over="v"),
+            "inner_join": lambda t: t.inner_join(Table({"k": list(range(7)), "w": list(range(7))}), left_on="k", right_on="k"),
+            "join": lambda t: t.join(Table({"k": list(range(7)), "w": list(range(7))}), left_on="k", right_on="k"),
+            "full_join": lambda t: t.full_join(Table({"k": list(range(7)), "w": list(range(7))}), left_on="k", right_on="k", expect="many_to_one"),
+            "t + 1": lambda t: t[("k", "v")] + 1,
+        }
+        for label, op in ops.items():
+            t = mk()
+            src = table_view(t)
+            st, pair, e = attempt(lambda: (op(t), op(t)))
+            ex += 1
+            case = {"op": label, "rows": n}
+            if st != "ok":
+                F.add("derived_independent", case, "raised " + type(e).__name__ + ": " + str(e)[:60], "two results")
+                continue
+            a, b = pair
+            if a is b or any(x is y for x in a.cols() for y in b.cols()) or any(x is y for x in a.cols() for y in t.cols()):
+                F.add("derived_independent", case, "the two results (or result and source) share objects", "new objects")
+                continue
+            vb = table_view(b)
+            st, _, e = attempt(lambda: a.cols()[0].__setitem__(0, 424242))
+            if st != "ok":
+                F.add("derived_independent", case, "write to a result refused: " + type(e).__name__, "writable")
+                continue
+            if not views_equal(vb, table_view(b)):
+                F.add("derived_independent", case, "a write through the first result shows in the second", "independent")
+            if not views_equal(src, table_view(t)):
+                F.add("derived_independent", case, "a write through a result shows in the source", "independent")
+        # vectors
+        v = Vector(list(range(n)), name="v")
+        vops = {"sort_by": lambda x: x.sort_by(), "copy": lambda x: x.copy(), "slice": lambda x: x[:], "neg": lambda x: -x,
+                "add": lambda x: x + 1, "dropna": lambda x: x.dropna(), "fillna": lambda x: x.fillna(0), "unique": lambda x: x.unique(),
+                "cast": lambda x: x.cast(float)}
+        for label, op in vops.items():
+            sv = vec_view(v)
+            st, pair, e = attempt(lambda: (op(v), op(v)))
+            ex += 1
+            case = {"op": "Vector." + label, "rows": n}
+            if st != "ok":
+                continue
+            a, b = pair
+            if a is b or a is v:
+                F.add("derived_independent", case, "same object returned", "new objects")
+                continue
+            vb = vec_view(b)
+            st, _, e = attempt(lambda: a.__setitem__(0, a[0]))
+            st, _, e = attempt(lambda: a.__setitem__(0, 77 if not isinstance(a[0], float) else 77.0))
+            if st != "ok":
+                F.add("derived_independent", case, "write to a result refused: " + type(e).__name__, "writable")
+            elif not views_equal(vb, vec_view(b)) or not views_equal(sv, vec_view(v)):
+                F.add("derived_independent", case, "a write through one result shows elsewhere", "independent")
+    json.dump({"executed": ex, "failures": F.items, "per_clause": F.per, "skipped": F.skipped, "truth": [], "rule": [], "writeback": []},
+              open(out_path, "w"), default=str)
+
+
 def main():
     cmd = sys.argv[1]
+    if cmd == "twice":
+        return twice(sys.argv[2])
     if cmd == "struct":
         return struct(sys.argv[2])
     if cmd == "methods":
